@@ -50,7 +50,7 @@ func zzDelivered(im *pb.InterchainMeta, chain string) int {
 // other block (in particular not of a following empty block); a rejected one is listed nowhere;
 // the interchain counter equals the number of accepted requests. The proof verdict of each request
 // is a free choice too: a request whose proof was rejected changes nothing and is delivered nowhere (C03).
-// zz:also C08 C09 C03
+// zz:also C08 C09 C03 C01 C10
 func ZZH_C02_block_delivery() {
 	exec := zzNewExec(1, big.NewInt(0))
 	sv := &zzStubVerify{verdict: make([]uint8, 8), seen: make([]int, 8)}
@@ -63,9 +63,18 @@ func ZZH_C02_block_delivery() {
 	for h := uint64(2); h <= uint64(zz.Tier(4, 4)); h++ {
 		var txs []pb.Transaction
 		expect := 0
-		switch zz.Choice("block", 3) {
+		switch zz.Choice("block", 4) {
 		case 1:
 			txs = append(txs, zzTransferTx(zzUsers[0], zzUsers[1], nonce, int(h-2), "0"))
+			nonce++
+		case 3:
+			// a receipt that names a source service nobody registered: the interchain contract
+			// trips over the missing record (a panic inside the contract) - that is a failed
+			// transaction, not a reason for the block or the node to stop
+			ghost := &pb.BxhTransaction{From: zzAddr(zzUsers[1]), To: constant.InterchainContractAddr.Address(), Nonce: nonce, TransactionHash: zzHash(int(h - 2)), Timestamp: 1,
+				IBTP: &pb.IBTP{From: "1356:chA:ghost", To: "1356:chB:sB", Index: 1, Type: pb.IBTP_RECEIPT_SUCCESS}}
+			txs = append(txs, ghost)
+			sv.verdict[nonce] = 0
 			nonce++
 		case 2:
 			// (ids end up in ordered store keys: a concrete candidate set instead of a symbolic index;
@@ -86,6 +95,10 @@ func ZZH_C02_block_delivery() {
 		if crashed {
 			return
 		}
+		for _, tx := range txs {
+			r, e := exec.ledger.GetReceipt(tx.GetHash())
+			zz.Assert("C08.delivery.one-receipt-per-transaction", e == nil && r != nil)
+		}
 		im, err := exec.ledger.GetInterchainMeta(h)
 		zz.Assert("C02.delivery.meta-stored", err == nil)
 		zz.Cover("C02.delivery.accepted", expect == 1)
@@ -95,6 +108,15 @@ func ZZH_C02_block_delivery() {
 			zz.Assert("C02.delivery.position", im.Counter["chB"].Slice[0].Index == 0 && im.Counter["chB"].Slice[0].Valid)
 		}
 		zz.Assert("C09.meta.interchain-count", exec.ledger.GetChainMeta().InterchainTxCount == accepted)
+		zzCheckStoredRoots(exec, h) // (the block may hold a request whose proof was rejected: it is stored and committed to all the same)
+		// (C01) the stored meta is what a node started just before this block would have written: it
+		// names exactly the chains with deliveries in THIS block - no left-over entry, not even an
+		// empty one, for a chain that got a delivery in an earlier block of the same process
+		want := 0
+		if expect == 1 {
+			want = 1
+		}
+		zz.Assert("C01.delivery.meta-names-only-this-blocks-chains", im != nil && len(im.Counter) == want)
 	}
 	ic := &pb.Interchain{}
 	ok, data := exec.ledger.GetState(constant.InterchainContractAddr.Address(), []byte(contracts.INTERCHAINSERVICE_PREFIX+"-"+zzSrcFullID()))
